@@ -146,7 +146,7 @@ RecPrefixC == (IsRec /\ rec.rc = 0) =>
                \A i \in {x \in Inos : M(x).kind = "log"} : IsPrefixSet(SetOf(rec.markers), SegOf(i))
 \* C05: opening again loses nothing further
 RecAgainC == (IsRec /\ rec.rc = 0 /\ "again" \in DOMAIN rec) =>
-               /\ rec.again.rc = 0 /\ rec.again.status = 0
+               /\ rec.again.rc = 0 /\ rec.again.status = 0 /\ rec.again.bad = 0 /\ rec.again.getmismatch = 0
                /\ SetOf(rec.again.markers) = SetOf(rec.markers) /\ DataOf(rec.again.data) = DataOf(rec.data)
 \* C05: writes made after recovery take precedence and persist across the next reopen
 RECURSIVE ApplyFollow(_, _)
@@ -155,9 +155,9 @@ RecFollowC == (IsRec /\ rec.rc = 0 /\ "follow" \in DOMAIN rec) =>
                LET fw == rec.follow
                    want == ApplyFollow(DataOf(rec.data), fw.ops)
                    wantM == SetOf(rec.markers) \cup {fw.ops[j][1] : j \in 1..Len(fw.ops)}
-               IN /\ fw.wrc = 0 /\ fw.status = 0
+               IN /\ fw.wrc = 0 /\ fw.status = 0 /\ fw.bad = 0 /\ fw.getmismatch = 0      \* point lookups agree with the scan
                   /\ DataOf(fw.data) = want /\ SetOf(fw.markers) = wantM
-                  /\ fw.reopen.rc = 0 /\ fw.reopen.status = 0
+                  /\ fw.reopen.rc = 0 /\ fw.reopen.status = 0 /\ fw.reopen.bad = 0 /\ fw.reopen.getmismatch = 0
                   /\ DataOf(fw.reopen.data) = want /\ SetOf(fw.reopen.markers) = wantM
 
 \* a violated invariant prints the trace position, so the orchestrator need not wait for TLC to rebuild the behaviour
